@@ -79,8 +79,30 @@ def generate(seed, index, tier):
     v1_ok = all(not (m.get('meta') or {}).get('indexes')
                 and not (m.get('meta') or {}).get('constraints')
                 for a in apps for m in st['apps'][a]['models'])
+    step_muts = None
+    if rng.random() < 0.4:
+        # a second phase: the signature stored AFTER an upgrade (mutations
+        # write attribute values such as explicit None / False into it)
+        cfg2 = dict(cfg)
+        cfg2['ops'] = {'ChangeField': 8, 'AddField': 2, 'RenameField': 1,
+                       'DeleteField': 0, 'ChangeMeta': 0, 'RenameModel': 0,
+                       'DeleteModel': 0, 'NewModel': 0, 'SQLMutation': 0}
+        cfg2['db_column'] = True
+        cfg2['type_changes'] = False
+        g2 = gen.Gen(rng, cfg2)
+        g2.counter = 500
+        muts, st1, _ = g2.gen_sequence(st, 'va', rng.choice([1, 2, 3]), {
+            t: [] for t in []} or None)
+        if muts:
+            step_muts = muts
+            project['apps']['va']['steps'].append(
+                {'evos': [{'label': 'e1', 'mutations': muts}]})
+            for a in apps:
+                if a != 'va':
+                    project['apps'][a]['steps'].append({'evos': []})
     return {'project': project, 'h1': h1, 'h2': h2,
-            'legacy': bool(v1_ok and rng.random() < 0.6),
+            'after_upgrade': bool(step_muts),
+            'legacy': bool(v1_ok and rng.random() < 0.6) and not step_muts,
             'clock_gap_us': rng.choice([0, 1, 10 ** 6, 86400 * 10 ** 6])}
 
 
@@ -146,7 +168,10 @@ def execute(scn):
                     st=p.get('diff_st_empty'), ts=p.get('diff_ts_empty'),
                     **detail))
             if not p.get('reserialise_equal') and not scn.get('legacy'):
-                viols.append(violation('C06.reserialise_differs', **detail))
+                viols.append(violation(
+                    'C06.reserialise_differs',
+                    order_only=bool(p.get('reserialise_content_equal')),
+                    **detail))
             if not p.get('clone_eq') or not p.get('clone_diff_empty') or \
                     not p.get('self_diff_empty'):
                 viols.append(violation('C06.clone_or_self', **{
@@ -158,6 +183,36 @@ def execute(scn):
             viols.append(violation(
                 'C06.rerun_required', status=r.status,
                 out=(r.stdout() + r.stderr())[-300:], **detail))
+        if scn.get('after_upgrade') and r.status == 'ok':
+            proj.deploy(ws, P, 1, sts)
+            u = ws.run('evolve', {'execute': True}, hashseed=scn['h1'])
+            if u.status == 'ok' and u.writes():
+                stats['after_upgrade'] = 1
+                r3 = ws.run('evolve', {'execute': True},
+                            hashseed=scn['h2'], probes=['sig'])
+                p3 = r3.probe('sig') or {}
+                d3 = dict(detail, phase='after_upgrade',
+                          ops=common.op_tags(P))
+                if p3 and not p3.get('error'):
+                    if not p3.get('reserialise_equal'):
+                        viols.append(violation(
+                            'C06.reserialise_differs',
+                            order_only=bool(p3.get(
+                                'reserialise_content_equal')), **d3))
+                    if not p3.get('clone_eq') or not p3.get(
+                            'clone_diff_empty') or not p3.get(
+                            'self_diff_empty'):
+                        viols.append(violation('C06.clone_or_self', **dict(
+                            d3, clone_eq=p3.get('clone_eq'))))
+                    if not p3.get('diff_st_empty') or not p3.get(
+                            'diff_ts_empty'):
+                        viols.append(violation(
+                            'C06.diff_nonempty',
+                            diff=p3.get('diff_st', '')[:300],
+                            st=p3.get('diff_st_empty'),
+                            ts=p3.get('diff_ts_empty'), **d3))
+            else:
+                stats['after_upgrade_not_executed'] = 1
         res['runs'] = ws.nruns
     with runner.Workspace() as ws2:
         r0 = common.install(ws2, P, sts, 0, hashseed=scn['h2'])
